@@ -57,6 +57,7 @@ int  zv_schedule_mismatch(void);           /* the explicit schedule named a disa
 int  zv_step_fault(int nalt);               /* w of the current step as a failure point (0 = none); nalt = number of alternatives the
                                                caller knows of (recorded in the trace for the exhaustive search) */
 void zv_fail_create_at(int k);              /* the k-th pthread_create from now on (1-based) fails once, whatever the schedule; 0 = off */
+int  zv_total_faults(void);                 /* number of pthread_create failures injected so far, all threads */
 int  zv_thread_faults(void);                /* number of pthread_create failures injected into the calling thread so far */
 int  zv_trace_len(void);
 const zv_trace_step* zv_trace(void);
